@@ -422,7 +422,7 @@ func c08Retention(c *Ctx) (cases int64, truncating int64) {
 						// the survivors are exactly the newest events, untouched, and dirty is set iff something was dropped
 						keep := txn.Catalog().Namespaces[lungo.Oplog].Documents.List
 						for k, d := range keep {
-							if d != list[drop+k] && got == n-drop {
+							if got == n-drop && d != list[drop+k] {
 								r.Violation("retention:not-a-suffix", fmt.Sprintf("Clean kept something else than the newest %d events (ages %v)", got, pat), map[string]interface{}{"part": "retention", "ages_s": pat})
 								break
 							}
